@@ -578,7 +578,7 @@ func genericReplay(e *Engine, r *FnResult, o *Obligation) *ReplaySpec {
 		call = "(" + recvExpr + ")." + call
 	}
 	var imp strings.Builder
-	imp.WriteString("import \"testing\"\n")
+	imp.WriteString("import \"testing\"\nimport \"runtime/debug\"\n")
 	for path, name := range s.imports {
 		fmt.Fprintf(&imp, "import %s %q\n", name, path)
 	}
@@ -590,14 +590,15 @@ func genericReplay(e *Engine, r *FnResult, o *Obligation) *ReplaySpec {
 func %s(t *testing.T) {
 	defer func() {
 		if r := recover(); r != nil {
-			t.Fatalf("GOVC-REPLAY panic: %%v", r)
+			t.Fatalf("GOVC-REPLAY panic: %%v\n%%s", r, debug.Stack())
 		}
 	}()
 	%s
 }
 `, fn.Pkg.Pkg.Name(), imp.String(), o.Name, name, call)
 	rel, _ := filepath.Rel(e.RepoDir, filepath.Dir(e.Fset.Position(fn.Pos()).Filename))
-	return &ReplaySpec{PkgDir: rel, TestName: name, Source: src, Expect: "panic"}
+	// the panic must come from the instruction the obligation is about (same file:line in the stack trace)
+	return &ReplaySpec{PkgDir: rel, TestName: name, Source: src, Expect: "panic", MustContain: strings.TrimPrefix(o.Pos, "")}
 }
 
 // runReplay injects the test with -overlay and runs it against the real code.
@@ -626,6 +627,12 @@ func runReplay(e *Engine, spec *ReplaySpec) (string, bool) {
 	failed := err != nil && (strings.Contains(s, "GOVC-REPLAY") || strings.Contains(s, "--- FAIL") || strings.Contains(s, "panic:") || strings.Contains(s, "fatal error"))
 	if strings.Contains(s, "[build failed]") || strings.Contains(s, "[setup failed]") {
 		failed = false
+	}
+	if failed && spec.MustContain != "" && spec.MustContain != "?" {
+		// file:line of the obligation, as it appears in a Go stack trace (path suffix)
+		if !strings.Contains(s, spec.MustContain+" ") && !strings.Contains(s, spec.MustContain+"\n") {
+			failed = false
+		}
 	}
 	return s, failed
 }
